@@ -32,7 +32,7 @@ type c03Script struct {
 }
 
 type c03Case struct {
-	Route    string    `json:"route"` // direct|http|https|socks5|connectfunc|upgrade
+	Route    string    `json:"route"` // direct|http|https|socks5|connectfunc|upgrade|tlsterm (CONNECT whose target-side TLS the proxy terminates)
 	Cap      int       `json:"cap"`
 	Client   c03Script `json:"client"`
 	Target   c03Script `json:"target"`
@@ -103,7 +103,7 @@ func genC03Script(t *tape.Tape, tier string) c03Script {
 
 func genC03(t *tape.Tape, tier string) any {
 	c := &c03Case{}
-	c.Route = []string{"direct", "http", "https", "socks5", "connectfunc", "upgrade"}[t.Pick(4, 3, 2, 2, 1, 2)]
+	c.Route = []string{"direct", "http", "https", "socks5", "connectfunc", "upgrade", "tlsterm"}[t.Pick(4, 3, 2, 2, 1, 2, 2)]
 	c.Cap = []int{256 << 10, 2048, 4096, 16 << 10, 64 << 10, 4 << 20}[t.Pick(4, 2, 2, 2, 2, 1)]
 	c.Client = genC03Script(t, tier)
 	c.Target = genC03Script(t, tier)
@@ -382,6 +382,19 @@ func runC03(env *core.Env, ci any) {
 				farSide(t, conn, conn, nil, nil)
 			})
 		}
+	case "tlsterm":
+		tleaf := ca.ValidLeaf("target.example", ipTarget)
+		for i := range tunnels {
+			t := tunnels[i]
+			serve(env, "target", fmt.Sprintf("%s:%d", ipTarget, 7000+i), func(conn *simnet.Conn) {
+				tc := tls.Server(conn, &tls.Config{Certificates: []tls.Certificate{tleaf}, MaxVersion: c03MaxTLS(c)})
+				if err := tc.Handshake(); err != nil {
+					conn.Close()
+					return
+				}
+				farSide(t, tc, conn, nil, nil)
+			})
+		}
 	case "upgrade":
 		for i := range tunnels {
 			t := tunnels[i]
@@ -541,6 +554,9 @@ func runC03(env *core.Env, ci any) {
 			case "direct", "connectfunc":
 				hp := fmt.Sprintf("%s:%d", ipTarget, 7000+t.idx)
 				head = fmt.Sprintf("CONNECT %s %s\r\nHost: %s\r\n%s\r\n", hp, proto, hp, c03ConnLine(c))
+			case "tlsterm":
+				hp := fmt.Sprintf("target.example:%d", 7000+t.idx)
+				head = fmt.Sprintf("CONNECT %s %s\r\nHost: %s\r\nX-Martian-Terminate-Tls: true\r\n%s\r\n", hp, proto, hp, c03ConnLine(c))
 			case "upgrade":
 				hp := fmt.Sprintf("target.example:%d", 7000+t.idx)
 				conn := "Upgrade"
